@@ -36,12 +36,14 @@ __attribute__((used, visibility("default"))) const char* __ubsan_default_options
 
 // --------------------------------------------------- allocation balance
 static long g_live = 0;
+#ifndef CLISIM_NO_ALLOC_COUNT // (the valgrind worker keeps valgrind's own replacement of operator new/delete)
 void* operator new(std::size_t n) { void* p = std::malloc(n ? n : 1); if (!p) throw std::bad_alloc(); ++g_live; return p; }
 void* operator new[](std::size_t n) { void* p = std::malloc(n ? n : 1); if (!p) throw std::bad_alloc(); ++g_live; return p; }
 void operator delete(void* p) noexcept { if (p) { --g_live; std::free(p); } }
 void operator delete[](void* p) noexcept { if (p) { --g_live; std::free(p); } }
 void operator delete(void* p, std::size_t) noexcept { if (p) { --g_live; std::free(p); } }
 void operator delete[](void* p, std::size_t) noexcept { if (p) { --g_live; std::free(p); } }
+#endif
 
 using namespace clisim;
 
@@ -667,7 +669,7 @@ struct BlockSpace {
          size_t nb = 0;
          for (size_t b : line_starts(cf.bytes)) { auto tk = tokens_of(cf.bytes, b, line_end(cf.bytes, b)); if (tk.size() >= 2) { const std::string first = cf.bytes.substr(tk[0].first, tk[0].second - tk[0].first); if (ieq(first, "block") || ieq(first, "decay")) ++nb; } }
          Seg s{f, nb, ex, 0};
-         s.n = 3 * nb + (ex ? nb * (nb - 1) / 2 : 0);
+         s.n = 3 * nb + (ex ? nb * (nb - 1) / 2 + 2 * nb * (size_t)N_BLOCK_NAMES : 0);
          total += s.n; segs.push_back(s);
       }
    }
@@ -678,6 +680,12 @@ struct BlockSpace {
             const std::string base = "base corpus " + g_corpus.files[s.file].rel;
             if (idx < 3 * s.nblocks) { static const char* const ops3[] = {"dropblock ", "emptyblock ", "lastentryonly "}; return {base, "src path", ops3[idx % 3] + std::to_string(idx / 3)}; }
             idx -= 3 * s.nblocks;
+            const size_t npairs = s.nblocks * (s.nblocks - 1) / 2;
+            if (idx >= npairs) { // examples: every block renamed to / cloned under every known block name
+               idx -= npairs;
+               const size_t which = idx % 2; idx /= 2;
+               return {base, "src path", std::string(which ? "cloneblock " : "renameblock ") + std::to_string(idx / N_BLOCK_NAMES) + " " + std::to_string(idx % N_BLOCK_NAMES)};
+            }
             size_t i = 0; while (idx >= s.nblocks - 1 - i) { idx -= s.nblocks - 1 - i; ++i; }
             const size_t j = i + 1 + idx;
             return {base, "src path", "dropblock " + std::to_string(j), "dropblock " + std::to_string(i)}; // higher index first: indices stay valid
@@ -733,7 +741,8 @@ int main(int argc, char** argv)
    // the life of a process, e.g. a warn-once flag, included)
    uint64_t max_steps = 0;
    g_budget = 4000000000ULL;
-   {
+   const bool no_calibration = std::getenv("CLISIM_NO_CALIBRATION") != nullptr; // valgrind worker: no step clock, no budget
+   if (!no_calibration) {
       int fd[2];
       if (pipe(fd) != 0) { std::fprintf(stderr, "pipe failed\n"); return 2; }
       std::fflush(stdout);
@@ -754,13 +763,13 @@ int main(int argc, char** argv)
       int status = 0; waitpid(pid, &status, 0);
       if (!(WIFEXITED(status) && WEXITSTATUS(status) == 0)) { std::printf("NOTE calibration on the intact corpus ended abnormally (status %d)\n", status); }
    }
-   g_budget = std::max<uint64_t>(50 * max_steps, 2000000);
+   if (!no_calibration) g_budget = std::max<uint64_t>(50 * max_steps, 2000000);
 
    std::string line;
    while (sim::read_line(line)) {
       const auto t = sim::split(line);
       if (t.empty()) continue;
-      if (t[0] == "RUNS" || t[0] == "LIGHT" || t[0] == "PREFIX" || t[0] == "PREFIXQ" || t[0] == "TOKEN" || t[0] == "TOKENQ" || t[0] == "CONFIG" || t[0] == "CONFIGQ" || t[0] == "ARGLEN" || t[0] == "BLOCKS" || t[0] == "BLOCKSQ" || t[0] == "CMDLINE" || t[0] == "ENV" || t[0] == "BOUNDARY" || t[0] == "SCALE" || t[0] == "SCALEQ" || t[0] == "KNOB" || t[0] == "CORPUS") {
+      if (t[0] == "RUNS" || t[0] == "LIGHT" || t[0] == "PREFIX" || t[0] == "PREFIXQ" || t[0] == "TOKEN" || t[0] == "TOKENQ" || t[0] == "CONFIG" || t[0] == "CONFIGQ" || t[0] == "ARGLEN" || t[0] == "EDGE" || t[0] == "BLOCKS" || t[0] == "BLOCKSQ" || t[0] == "CMDLINE" || t[0] == "ENV" || t[0] == "BOUNDARY" || t[0] == "SCALE" || t[0] == "SCALEQ" || t[0] == "KNOB" || t[0] == "CORPUS") {
          const bool rnd = t[0] == "RUNS" || t[0] == "LIGHT";
          if (t.size() < (rnd ? 4u : 3u)) { std::printf("NOTE malformed command: %s\nDONE\n", line.c_str()); continue; }
          const uint64_t seed = rnd ? std::strtoull(t[1].c_str(), nullptr, 0) : 0;
@@ -821,6 +830,7 @@ int main(int argc, char** argv)
          std::printf("TRACE stderr[0:200]=%s\n", sim::jesc(err.substr(0, 200)).c_str());
          std::printf("RESULT sig=%s hash=%016" PRIx64 " status=%d steps=%" PRIu64 "\nDONE\n", rr.sig[0] ? rr.sig : "OK", rr.hash, rr.status, rr.steps);
       } else if (t[0] == "QUIT") break;
+      else std::printf("NOTE unknown command: %s\nDONE\n", t[0].c_str());
    }
    return 0;
 }
